@@ -54,16 +54,44 @@ def gen(rng, tier):
             data['j'] = j
         out.append(Case(k, line, data))
     turn = {}
-    for _ in range(25 if tier == 'quick' else 300):
+    for it_ in range(25 if tier == 'quick' else 300):
         r = rng.random()
         ar = rng.random() < .2      # un-normalised knot ranges hit the recorded finding F-01
         cl = rng.random() < .75       # unclamped knot vectors: the domain ends are NOT the first / last knot
+        force_twin = it_ % 5 == 1     # every fifth round is a twin-direction surface / volume (see below)
+        if force_twin:
+            r = .5 if it_ % 10 == 1 else .9
+            ar = False
         if r < .4:
             d = S.rand_curve(rng, maxp=4, allow_range=ar, clamped=cl)
         elif r < .8:
             d = S.rand_surface(rng, maxp=3, max_interior=2, allow_range=ar, clamped=cl)
         else:
             d = S.rand_volume(rng, maxp=2, max_interior=1, allow_range=ar, clamped=cl)
+        if not ar and d['kind'] != 'curve' and (force_twin or rng.random() < .1):
+            # TWIN directions: the same degree, the same number of control points and (below) the same sample size in every
+            # direction, but DIFFERENT interior knots - anything shared between "equal looking" directions must show
+            p_ = rng.randint(1, 3)
+            kvs_ = []
+            for _t in range(200):
+                kv_, n_ = G.knots(rng, p_, max_interior=3, allow_range=False, clamped=cl)
+                if len(kv_) > 2 * (p_ + 1) and (not kvs_ or (len(kv_) == len(kvs_[0]) and kv_ not in kvs_)):
+                    kvs_.append(kv_)
+                if len(kvs_) == len(S.dirs(d)):
+                    break
+            if len(kvs_) == len(S.dirs(d)):
+                n_ = len(kvs_[0]) - p_ - 1
+                dim_ = d['dim']
+                npts = n_ ** len(kvs_)
+                P_ = G.points(rng, npts, dim_)
+                if d['rat']:
+                    P_ = G.homogeneous(P_, G.weights(rng, npts))
+                if d['kind'] == 'surface':
+                    d = dict(kind='surface', rat=d['rat'], pu=p_, pv=p_, kvu=kvs_[0], kvv=kvs_[1], su=n_, sv=n_, P=P_, dim=dim_)
+                else:
+                    d = dict(kind='volume', rat=d['rat'], pu=p_, pv=p_, pw=p_, kvu=kvs_[0], kvv=kvs_[1], kvw=kvs_[2], su=n_, sv=n_, sw=n_, P=P_, dim=dim_)
+                d['twin'] = True
+                G.count('shape', 'twin-directions')
         if not ar and d['kind'] != 'curve' and rng.random() < .3:
             # knot ranges of length 1 (sample sizes are honoured, F-01 does not apply) that start at a DIFFERENT value in every
             # direction: the object keeps them (normalize_kv=False), a u / v mix-up of the default grid ends must show
@@ -73,6 +101,8 @@ def gen(rng, tier):
             G.count('knot_range', 'unit-length-shifted-per-direction')
         hi = 12 if d['kind'] == 'curve' else (6 if d['kind'] == 'surface' else 4)
         sizes = [rng.randint(2, hi) for _ in S.dirs(d)]
+        if d.get('twin'):
+            sizes = [sizes[0]] * len(sizes)
         deltas = [(kv[n_] - kv[p]) / sz for (p, kv, n_), sz in zip(S.dirs(d), sizes)]
         if any(dl >= 1 or dl <= 0 for dl in deltas):
             continue   # the delta setter rejects these
